@@ -417,7 +417,10 @@ func c16JudgePair(c *Check, rule string, pk *packages.Package, key string, pos t
 		})
 	}
 	flow := c.P.FlowOf(info, body, key)
-	target, found := flow.PtOf(pos)
+	target, found := flow.PtOfNode(codeE)
+	if !found {
+		target, found = flow.PtOf(pos)
+	}
 	if !found {
 		c.Fail(rule, key, pos, "undecided: literal not located in the control-flow graph")
 		return
